@@ -6,8 +6,9 @@
    closing coroutine); the peer as its time line [o] (any chunking, any arrival times, close or reset anywhere, transport
    errors); the receive path as any consumer machine M with [consumer_ok M spec R]. *)
 From Coq Require Import List Arith.
-From EN Require Import Lib.Bytes Frame.Framer Frame.ReadUntil Stream.Consumer Stream.Endpoint Stream.EndpointSpec
-  Conc.StreamServer Conc.StreamServerSpec Proofs.C15_proofs Proofs.C03_fixed.
+From EN Require Import Lib.Bytes Frame.Framer Frame.ReadUntil Frame.BufReadUntil Stream.Consumer Stream.SpecDecode
+  Stream.Endpoint Stream.EndpointSpec Conc.StreamServer Conc.StreamServerSpec Proofs.C15_proofs Proofs.C03_fixed
+  Proofs.C15_instances.
 Import ListNotations.
 
 (* The requests sent and the parse errors thrown into the handler generators, in order and concatenated over generator
@@ -66,6 +67,96 @@ Theorem requests_exactly_once_in_order_fixed_size :
     /\ (f_eof f = true -> got_log (ulog (f_user f)) = fx_spec size dec (sstream_of o)).
 Proof. exact (@fixed_requests_in_order). Qed.
 Print Assumptions requests_exactly_once_in_order_fixed_size.
+
+(* ==================================================================================================================
+   Sorted arrivals: when the peer's arrival times never decrease ([nondecr]), a TimeoutError means that EVERYTHING the
+   peer has not yet delivered arrives at or after the deadline (and there is something: the peer has not gone away). *)
+Theorem timeout_only_if_none_arrived_sorted :
+  forall (P C : Type) (M : machine P C) (spec : bytes -> list (nres P)) (R : C -> bytes -> nat -> Prop),
+    consumer_ok M spec R ->
+    forall (t : option nat) (c : C) (o : speer) (now : nat) (d : bytes) (k : nat) c' o' now',
+      nondecr o ->
+      R c d k ->
+      rq_next M t c o now = (c', o', now', NThrow XTimeout) ->
+      exists tm x, t = Some tm /\ now' = now + tm /\ x ++ sstream_of o' = sstream_of o /\
+                   R c' (d ++ x) k /\ k = length (spec (d ++ x)) /\
+                   o' <> [] /\ Forall (fun it => now + tm <= sitem_at it) o'.
+Proof. exact (@rq_next_timeout_sorted). Qed.
+Print Assumptions timeout_only_if_none_arrived_sorted.
+
+(* ==================================================================================================================
+   Separator framing: the interface relativised to a prefix-closed predicate G on the request stream. *)
+Theorem requests_exactly_once_in_order_rel_generic :
+  forall (P C : Type) (M : machine P C) (spec : bytes -> list (nres P)) (G : bytes -> Prop)
+         (R : C -> bytes -> nat -> Prop) (D : C -> bytes -> Prop),
+    consumer_ok_rel M spec G R D ->
+    forall c0 : C, R c0 [] 0 ->
+    forall (oc : nat) (acts0 : list hact) (o : speer),
+      G (sstream_of o) ->
+      let f := client_coroutine M oc acts0 c0 o in
+      (exists n, got_log (ulog (f_user f)) = firstn n (spec (sstream_of o)))
+      /\ (f_eof f = true -> got_log (ulog (f_user f)) = spec (sstream_of o)).
+Proof. exact (@client_coroutine_req_rel). Qed.
+Print Assumptions requests_exactly_once_in_order_rel_generic.
+
+Theorem timeout_only_if_none_arrived_sorted_rel_generic :
+  forall (P C : Type) (M : machine P C) (spec : bytes -> list (nres P)) (G : bytes -> Prop)
+         (R : C -> bytes -> nat -> Prop) (D : C -> bytes -> Prop),
+    consumer_ok_rel M spec G R D ->
+    forall (t : option nat) (c : C) (o : speer) (now : nat) (d : bytes) (k : nat) c' o' now',
+      G (d ++ sstream_of o) -> nondecr o ->
+      R c d k ->
+      rq_next M t c o now = (c', o', now', NThrow XTimeout) ->
+      exists tm x, t = Some tm /\ now' = now + tm /\ x ++ sstream_of o' = sstream_of o /\
+                   D c' (d ++ x) /\ k = length (spec (d ++ x)) /\
+                   o' <> [] /\ Forall (fun it => now + tm <= sitem_at it) o'.
+Proof. exact (@rq_next_timeout_sorted_rel). Qed.
+Print Assumptions timeout_only_if_none_arrived_sorted_rel_generic.
+
+(* closed instances: _RequestReceiver x StreamDataConsumer x read_until (both keep_end values) and
+   _BufferedRequestReceiver x BufferedStreamDataConsumer x _buffered_readuntil; the only hypothesis left is that every
+   frame of the request stream stays inside the safe band of the limit *)
+Theorem requests_exactly_once_in_order_read_until :
+  forall (P : Type) (sep : bytes) (limit : nat) (keep_end : bool) (dec : decoder P) (bufsize : nat),
+    sep <> [] -> 0 < bufsize ->
+  forall (oc : nat) (acts0 : list hact) (o : speer),
+    safe sep limit (sstream_of o) ->
+    let f := client_coroutine (copy_machine (ru_framer sep limit keep_end dec) bufsize) oc acts0
+                              (cinit (ru_framer sep limit keep_end dec)) o in
+    (exists n, got_log (ulog (f_user f)) = firstn n (fst (spec_events sep keep_end dec (sstream_of o))))
+    /\ (f_eof f = true -> got_log (ulog (f_user f)) = fst (spec_events sep keep_end dec (sstream_of o))).
+Proof. exact (@ru_requests_in_order). Qed.
+Print Assumptions requests_exactly_once_in_order_read_until.
+
+Theorem requests_exactly_once_in_order_buffered_read_until :
+  forall (P : Type) (sep : bytes) (limit : nat) (keep_end : bool) (dec : decoder P) (sizehint : nat),
+    sep <> [] -> length sep + 1 <= limit ->
+  forall (oc : nat) (acts0 : list hact) (o : speer),
+    safe sep (limit - 1 - length sep) (sstream_of o) ->
+    let f := client_coroutine (buf_machine (bru_framer sep limit keep_end dec) sizehint) oc acts0
+                              (bcinit (bru_framer sep limit keep_end dec)) o in
+    (exists n, got_log (ulog (f_user f)) = firstn n (fst (spec_events sep keep_end dec (sstream_of o))))
+    /\ (f_eof f = true -> got_log (ulog (f_user f)) = fst (spec_events sep keep_end dec (sstream_of o))).
+Proof. exact (@bru_requests_in_order). Qed.
+Print Assumptions requests_exactly_once_in_order_buffered_read_until.
+
+(* non-vacuity for the separator instances: LF framing, limit 8, ascii codec, buffer-filling consumer, max_recv_size 2;
+   "a\n\200" at 0, "\nb\n" at 3, EOF at 5; one generator per event *)
+Example c15_buffered_example :
+  let dec := fun b : bytes => if forallb (fun x => N.ltb x 128) b then Some b else None in
+  let o := [SData [97;10;200]%N 0; SData [10;98;10]%N 3; SEof 5] in
+  let f := client_coroutine (buf_machine (bru_framer [10%N] 8 false dec) 2) 0
+             [AYield None; AReturn; AYield None; AReturn; AYield None; AYield None] (bcinit _) o in
+  safe [10%N] (8 - 1 - 1) (sstream_of o) /\ nondecr o
+  /\ got_log (ulog (f_user f)) = [RPkt [97%N]; RErr EDecode; RPkt [98%N]]
+  /\ f_eof f = true.
+Proof.
+  cbv zeta. split; [|split; [|vm_compute; repeat split]].
+  - vm_compute. apply (safe_frame _ _ _ 1); [reflexivity|repeat constructor|].
+    apply (safe_frame _ _ _ 1); [reflexivity|repeat constructor|].
+    apply (safe_frame _ _ _ 1); [reflexivity|repeat constructor|]. apply safe_end; [reflexivity|vm_compute; repeat constructor].
+  - vm_compute. repeat constructor.
+Qed.
 
 (* ---- non-vacuity: size 2, identity codec; the peer sends "ab" at 0, "c" at 3, "d" at 9, closes at 12; the handler:
    generator 0 yields None, takes "ab", yields timeout 4 (deadline 4: "c" alone completes nothing -> TimeoutError at 4),
